@@ -1,0 +1,30 @@
+//go:build verif
+
+package stats
+
+// C04 (sum / avg equal the true aggregate of the values): the readers of a
+// column's statistics (GetSegSum, GetSegAvg, the variance functions) trust the
+// IsNumeric flag and refuse an entry that says "not numeric".  A column entry
+// can exist before its first number arrives (created by the string, time or
+// latest/earliest paths, some of which allocate NumStats while leaving
+// IsNumeric false), so by the time a number is folded into the statistics the
+// entry must say numeric AND have its numeric statistics allocated — whatever
+// state the earlier paths left it in.
+// Checked by /verif/bin/govc.  Comment-only file.
+
+//@ func AddSegStatsNums
+//@   props C04
+//@   assumecalleerequires
+//@   requires [an-entry-marked-numeric-has-its-statistics] implies(haskey(segstats, cname) && segstats[cname].IsNumeric, segstats[cname].NumStats != nil)
+//@   note the precondition is the invariant of the maps this package fills: every creator of an entry in this package that marks it numeric also allocates NumStats (not proved here: the creators are AddSegStatsStr / UNIXTime / LatestEarliestVal / this function)
+//@   site call stats.InsertIntoHll #1:
+//@     assert [an-entry-that-receives-a-number-is-numeric] stats.IsNumeric && stats.NumStats != nil
+//@   site call processStats #1:
+//@     assert [the-number-is-folded-into-that-entry] arg0 == stats
+//@ end
+
+//@ func GetDefaultNumStats
+//@   props C04
+//@   pure
+//@   ensures [fresh-zeroed-statistics] result != nil && result.NumericCount == 0
+//@ end
